@@ -67,6 +67,17 @@ def replay_behaviours(ctx, exe, items, tag):
     return exs, metas
 
 
+def rejected_once(ctx, sub, module, cfg, events, env=None):
+    """One TLC run: is this single (corrupted) execution rejected ?  (binding self-test)"""
+    p = os.path.join(ctx.scratch, "selftest.ndjson")
+    with open(p, "w") as f:
+        for ev in events:
+            f.write(json.dumps(ev, separators=(",", ":")) + "\n")
+    v, r = tracecheck.validate_file(ctx.spec(sub), module, cfg, p, env=env)
+    ctx.extra["trace_tlc_runs"] = ctx.extra.get("trace_tlc_runs", 0) + 1
+    return not v.accepted
+
+
 def run(ctx):
     d = ctx.stage("Termdet")
     exe = ctx.harness("fc_replay", ["harness/fourcounter/fc_replay.c"])
@@ -79,14 +90,22 @@ def run(ctx):
         cover = ACTIONS if n >= 3 else ()
         ctx.tlc_check(d, mod, cfg, must_cover=cover, workers=2, timeout=3000, heap="6g")
     ctx.exhaustive = True
-    mod, cfg = mcgen.write_mc(d, "fc_nolast", "FourCounter", consts(2, "nolast"), spec="Spec", invariants=("Safe",))
+    # sensitivity self-test: with a root decision that ignores the last_acc_* equality the model must violate Safe; the
+    # shortest unsafe behaviour TLC finds is kept as a DIRECTED behaviour for the replay on the real code
+    c = consts(2, "nolast")
+    c["MaxLen"] = 60
+    mod, cfg = mcgen.write_mc(d, "fc_nolast", "FourCounterSim", c, spec="SimSpec", invariants=("EmitUnsafe", "Safe"), view="vars")
     r = ctx.tlc_check(d, mod, cfg, expect_ok=False, workers=1)
     if r.violated != "Safe":
         raise tlc.TLCError("sensitivity self-test: a root decision without the last_acc_* equality must violate Safe, got %r" % r.violated)
+    directed = [(2, h) for h in (tlc._parse_tla_string_list(l) for l in r.printed) if h]
+    if not directed:
+        raise tlc.TLCError("sensitivity self-test: no unsafe behaviour was printed")
+    directed = directed[:1]
 
     # ---- 2. behaviours -> environment replay on the real module ----------------------------------------------------------------
     plan = [(3, 260, 40), (4, 160, 48)] if ctx.quick else [(2, 400, 32), (3, 1200, 44), (4, 900, 56), (5, 300, 64)]
-    items = []
+    items = list(directed)
     for n, num, depth in plan:
         c = consts(n)
         c["MaxLen"] = depth
@@ -98,6 +117,8 @@ def run(ctx):
     exs, metas = replay_behaviours(ctx, exe, items, "sim")
     ctx.evaluations = len(exs)
     for i, ((n, h), m) in enumerate(zip(items, metas)):
+        if i < len(directed):
+            continue          # predicted by the weakened model on purpose: judged by the trace specification only
         want = [[STATE_CODE[x] for x in s["st"]] + list(s["cb"]) for s in h]
         ok = (m.get("diverged") == 0 and m.get("obs") == want and m.get("fin") and
               m["fin"][-1] == [4] * n + [1] * n)
@@ -108,7 +129,8 @@ def run(ctx):
                                        "model": want[k] if k is not None else None,
                                        "real": m["obs"][k] if k is not None else m.get("fin")}}, limit=6)
     if exs:
-        ctx.sample({"behaviour": to_line(*items[0]), "events": exs[0], "control_messages": metas[0].get("ctl") if metas else None})
+        ctx.sample({"directed_behaviour": to_line(*items[0]), "events": exs[0]})
+        ctx.sample({"behaviour": to_line(*items[-2]), "events": exs[-2], "control_messages": metas[-2].get("ctl") if len(metas) > 1 else None})
 
     # ---- 3. verdict ---------------------------------------------------------------------------------------------------------------------
     fails = ctx.validate("Termdet", "FourCounterTrace", "FourCounterTrace.cfg", exs, batch=3000, env=JVM_ENV, timeout=1500)
@@ -122,10 +144,8 @@ def run(ctx):
     if cand and not ctx.violations:
         ex = list(cand[0])
         k = max(j for j, ev in enumerate(ex) if ev.get("e") == "recvend")
-        n0 = ctx.traces
-        if not ctx.validate("Termdet", "FourCounterTrace", "FourCounterTrace.cfg", [ex[:k] + ex[k + 1:]], env=JVM_ENV):
+        if not rejected_once(ctx, "Termdet", "FourCounterTrace", "FourCounterTrace.cfg", ex[:k] + ex[k + 1:], JVM_ENV):
             raise tlc.TLCError("binding self-test: a trace without the last recvend was accepted by FourCounterTrace")
-        ctx.traces = n0
     ctx.assume("taskpool_ready is called while the process holds a pending action (runtime start-up action)")
     ctx.assume("control channels are FIFO per (source, destination); application messages may be delayed arbitrarily")
     ctx.assume("a receive is incoming_message_start, later addto_runtime_actions(+1) + incoming_message_end (remote_dep_release_incoming)")
